@@ -384,6 +384,10 @@ def judge_hop(R, g, n0, Pin, Sin, Pout, Sout, live, hop, tally):
         good &= np.where(np.isfinite(err), err, np.inf) <= tol
     R.nontrivial(bool((j & (np.hypot(qs[:, 0], qs[:, 1]) > 1e-3)).any()))
     tally['hit'] += int(j.sum())
+    with np.errstate(invalid='ignore'):
+        path = np.where(j & np.isfinite(s_ref), s_ref - s0, 0.0)      # Newton's unknown: path from the local z=0 plane
+    tally['path<-128'] += int((path < -128).sum())
+    tally['path>+128'] += int((path > 128).sum())
     # --- direction ------------------------------------------------------------------------------
     s_ref = np.where(np.isfinite(s_ref), s_ref, 0.0)
     qr = p + s_ref[:, None] * d
@@ -551,7 +555,8 @@ def report_tally(R, tally):
 
 
 def new_tally():
-    return {'hit': 0, 'miss': 0, 'tir': 0, 'start-outside': 0, 'q2d-origin-excluded': 0, 'back-refraction': 0}
+    return {'hit': 0, 'miss': 0, 'tir': 0, 'start-outside': 0, 'q2d-origin-excluded': 0, 'back-refraction': 0,
+            'path<-128': 0, 'path>+128': 0}
 
 
 # ---------------------------------------------------------------------------------------------
@@ -843,6 +848,60 @@ def run_seq(case, seed, R):
     R.outcome(f'len{len(geos)}')
 
 
+def bundle_long(semi, zdir, z0, nl):
+    """nl x nl lattice over [-semi, semi]^2 (nl odd: includes the axis) x the four directions, travelling in zdir * z."""
+    lat = np.linspace(-semi, semi, nl)
+    P, S = [], []
+    for kl in directions('quick'):
+        m = zdir * math.sqrt(1 - kl[0] ** 2 - kl[1] ** 2)
+        for y in lat:
+            for x in lat:
+                P.append([float(x), float(y), z0])
+                S.append([kl[0], kl[1], m])
+    return np.array(P), np.array(S)
+
+
+def long_pool():
+    """Posed large surfaces for the two-surface long-path prescriptions."""
+    return [
+        {'shape': {'kind': 'conic', 'c': -1 / 2000, 'k': -1.0}, 'P': [0.0, 0.0, 900.0], 'R': None, 'typ': 'refl', 'n': 1.0},
+        {'shape': {'kind': 'conic', 'c': 1 / 1000, 'k': 0.0}, 'P': [20.0, -30.0, 50.0], 'R': [0, 5, 3], 'typ': 'refr', 'n': 1.5},
+        {'shape': {'kind': 'conic', 'c': -1 / 1000, 'k': -1.0}, 'P': [0.0, 0.0, 50.0], 'R': None, 'typ': 'refr', 'n': 1.5},
+        {'shape': {'kind': 'conic', 'c': 1 / 2000, 'k': 0.0}, 'P': [0.0, 0.0, -700.0], 'R': [10, 0, 0], 'typ': 'refl', 'n': 1.0},
+    ]
+
+
+def run_long(case, seed, R):
+    if 'seq' in case:
+        pl = long_pool()
+        geos = [Geo(pl[i], seed) for i in case['seq']]
+    else:
+        geos = [Geo(case['surf'], seed)]
+    P0, S0 = bundle_long(case['semi'], case['zdir'], case['z0'], case['nl'])
+    tally = new_tally()
+    trace_and_judge(R, geos, P0, S0, case['n0'], tally, form='batch')
+    report_tally(R, tally)
+    R.outcome('+z' if case['zdir'] > 0 else '-z')
+
+
+def long_cases(tier):
+    nl = 21 if tier == 'quick' else 31
+    out = []
+    for c in (1 / 1000, -1 / 1000, 1 / 2000, -1 / 2000):
+        semi = 0.7 / abs(c)
+        for k in (0.0, -1.0):
+            for pose in ({'P': [0.0, 0.0, 50.0], 'R': None}, {'P': [20.0, -30.0, 50.0], 'R': [0, 5, 3]}):
+                for t in TYPES[:3]:
+                    for zdir, z0 in ((1, -300.0), (-1, 400.0)):
+                        out.append({'surf': sdesc({'kind': 'conic', 'c': c, 'k': k}, pose, t), 'n0': t['n0'],
+                                    'semi': semi, 'zdir': zdir, 'z0': z0, 'nl': nl})
+    # two-surface prescriptions: mirror -> refractor (rays meet the refractor travelling -z) and refractor -> mirror
+    for seq in ([0, 1], [0, 2], [1, 0], [2, 3], [3, 1], [3, 2]):
+        for zdir, z0 in ((1, -300.0), (-1, 400.0)):
+            out.append({'seq': seq, 'n0': 1.0, 'semi': 700.0, 'zdir': zdir, 'z0': z0, 'nl': nl})
+    return out
+
+
 def ref_census(cases, tier):
     """Reference-only census of the rays of unit ``single`` (closed-form shapes): how many are judged / excluded and why."""
     P0, S0 = bundle(tier)
@@ -926,6 +985,11 @@ def plan(tier, seed):
         ScopeUnit('axis', axis, run_axis,
                   'every non-Q shape x pose x {reflect, refract (1,1.5)[, (1.5,1) in thorough]} x {axial, skew-aimed-at-vertex}: the ray through the local origin (exactly x=y=0 for '
                   'untilted surfaces) and four neighbours at 1e-4: finite, judged by the hop oracle, and equal to the mean of its neighbours to O(delta^2 c)', reset=rs_),
+        ScopeUnit('long', long_cases(tier), run_long,
+                  'long Newton paths (|s| from the local z=0 plane of 128 .. ~600 length units, BOTH signs): large-aperture conics c in {+-1/1000, +-1/2000} x k in {0,-1} with a '
+                  f'{21 if tier == "quick" else 31}^2 lattice scaled to 0.7 R (includes the axis) x the four directions, bundles travelling +z AND -z, x 2 poses (untilted, tilted+decentred) x '
+                  '{reflect, refract (1,1.5), (1.5,1)}; plus six two-surface prescriptions over a pool of four large posed surfaces (mirror -> refractor met travelling -z, refractor -> mirror) '
+                  'with both bundles; same hop oracle, misses excluded by the reference; outcome labels path<-128 / path>+128 count the rays whose reference path length is that long', reset=rs_),
         ScopeUnit('seq', seq, run_seq,
                   f'ALL sequences of length <= {L} over a pool of 5 posed surfaces (refracting sphere, tilted refracting conic back to n=1, tilted decentred refracting plane, '
                   f'parabolic mirror, tilted off-axis parabolic mirror) with n_ambient=1, plus all length-2 sequences with n_ambient=1.5; the {nd * nl * nl}-ray bundle; every hop judged '
